@@ -265,7 +265,10 @@ def _run(args, inp, extra_files=()):
 def signature_template(ref_id, alg="rsa-sha1", cert_body=None, sig_id=None, prefix="ds"):
     sm, dm = SIG_ALGS[alg]
     ki = ""
-    if cert_body:
+    if cert_body == "KEYVALUE":
+        # an empty KeyValue is filled by the signing tool with the public key of the signing key (RSAKeyValue)
+        ki = "<{p}:KeyInfo><{p}:KeyValue/></{p}:KeyInfo>".format(p=prefix)
+    elif cert_body:
         ki = "<{p}:KeyInfo><{p}:X509Data><{p}:X509Certificate>{c}</{p}:X509Certificate></{p}:X509Data></{p}:KeyInfo>".format(
             p=prefix, c=cert_body)
     return ('<{p}:Signature xmlns:{p}="{ds}"{sid}><{p}:SignedInfo>'
